@@ -238,13 +238,14 @@ def memcheck_monitor(tier, seed, conn, instrument='memcheck', cfgname='prod-g'):
         if not vg and instrument == 'memcheck':
             raise harness.HarnessError('valgrind not found')
         vgargs = ['-q', '--error-exitcode=96', '--exit-on-first-error=yes', '--num-callers=16', '--undef-value-errors=yes']
-        shards = [0, 1, 4, 9] if quick else list(range(16))
+        shards = [0, 1, 4, 9] if (quick or cfgname == 'p32-msan') else list(range(16))
         for name, (drv, lq, lt, mode) in VG_LIMITS.items():
             mod = importlib.import_module(name)
             exe = build.build_driver(cfgname, drv)
             wrapped = (vg, vgargs + [exe]) if instrument == 'memcheck' else (exe, [])
             if instrument != 'memcheck':
-                lq, lt = lq * MSAN_FACTOR['quick'], lt * MSAN_FACTOR['thorough']
+                # (the 32-bit-word MemorySanitizer build is 3-5x slower again: it repeats the quick volume in the thorough tier)
+                lq, lt = lq * MSAN_FACTOR['quick'], (lt * MSAN_FACTOR['thorough'] if cfgname == 'p64-msan' else lq * MSAN_FACTOR['quick'])
             if name == 'c15':
                 ex = {'prod': wrapped, 'san': wrapped}
                 limited = ['prod', 'san']
